@@ -47,7 +47,7 @@ META = dict(
                  "exceeds 1e-5 or a used pair has non-positive curvature"],
     need=["accepted_step_checks", "line_searches_seen", "wolfe_checks", "zoom_line_searches",
           "lbfgs_direction_vs_dense", "lbfgs_twin_comparisons", "status_checks"],
-    quick=dict(cases=700, workers=6, budget_s=80),
+    quick=dict(cases=600, workers=6, budget_s=80),
     thorough=dict(cases=16000, workers=16, budget_s=700),
     design_ref="DESIGN.md §5 C16",
     level_text=("generated energies x minimisers x line-search parameters; every accepted step, every line "
